@@ -21,6 +21,7 @@ PROPS = {
     "C09": {
         "design_ref": "DESIGN.md §3 C09",
         "tiers": {"quick": {"harness_timeout_s": 900}},
+        "expected_panics": {"q09_share_slice_partial_record_mustpanic": [r"assertion failed: from\.len\(\) %", r"Slice must be the same length as the array", r"assertion `left == right` failed"]},
         "functions_encoded": [
             "<T as ff::Serializable>::{serialize,deserialize} for T in Fp31, Fp32BitPrime, Fp61BitPrime, Boolean, Gf2..Gf40Bit, "
             "BA3..BA256, UniqueTag, Seed, (Seed,Seed), Hash, AdditiveShare<T> (10 instantiations), StdArray<T,1>, StdArray<Fp32BitPrime,32>, [Fp61BitPrime;15]::serialize",
